@@ -122,8 +122,11 @@ impl ParsedPacket {
         }
         let offset_edns_header = offset_edns - (1 + DNS_RR_HEADER_SIZE);
         debug_assert_eq!(self.packet()[offset_edns_header], 0);
-        let edns_len = self.packet().len() - offset_edns_header;
-        raw_edns.extend_from_slice(&self.packet()[offset_edns_header..]);
+        let edns_rdlen = BigEndian::read_u16(&self.packet()[offset_edns - 2..]) as usize;
+        let edns_len = 1 + DNS_RR_HEADER_SIZE + edns_rdlen;
+        raw_edns.extend_from_slice(
+            &self.packet()[offset_edns_header..offset_edns_header + edns_len],
+        );
         edns_len
     }
 
